@@ -330,12 +330,22 @@ func (w *world) directRegister(peer string, n nodeDef, s *svcDef, ks []chkDef) e
 		Datacenter: "dc1", ID: types.NodeID(n.id), Node: n.name, Address: n.addr, PeerName: peer,
 		EnterpriseMeta: *structs.DefaultEnterpriseMetaInDefaultPartition(),
 	}
+	// the rows take the shape an import stores (structs -> protobuf -> structs)
+	c := &structs.CheckServiceNode{Node: &structs.Node{Node: n.name}, Service: mkNodeService(svcDef{"x", "x", 1}, peer)}
 	if s != nil {
-		req.Service = mkNodeService(*s, peer)
+		c.Service = mkNodeService(*s, peer)
 	}
 	for _, k := range ks {
-		req.Checks = append(req.Checks, mkCheck(k, peer))
+		c.Checks = append(c.Checks, mkCheck(k, peer))
 	}
+	rt, err := pbservice.CheckServiceNodeToStructs(pbservice.NewCheckServiceNodeFromStructs(c))
+	if err != nil {
+		panic(err)
+	}
+	if s != nil {
+		req.Service = rt.Service
+	}
+	req.Checks = rt.Checks
 	return w.apply(structs.RegisterRequestType, req)
 }
 
@@ -344,7 +354,7 @@ func mkExportedService(is []inst) *pbpeerstream.ExportedService {
 	for _, i := range is {
 		// what the exporter sends: its own (local) rows, datacenter of the exporter, no Raft indexes
 		c := &structs.CheckServiceNode{
-			Node: &structs.Node{ID: types.NodeID(i.node.id), Node: i.node.name, Address: i.node.addr, Datacenter: "dc-exp"},
+			Node: &structs.Node{ID: types.NodeID(i.node.id), Node: i.node.name, Address: i.node.addr, Datacenter: "dc1"},
 			Service: mkNodeService(i.svc, ""),
 		}
 		for _, k := range i.chks {
@@ -882,10 +892,19 @@ type monCtx struct {
 	replay []string
 }
 
-func (m *monCtx) violate(sig, desc string) {
-	ops := append([]string(nil), m.replay...)
-	m.run.Violate(sig, desc, ops)
+var sigCount = map[string]int{}
+
+// report keeps at most two witnesses per signature (the recorder holds 50 in total) and counts the rest.
+func report(run *hx.Run, sig, desc string, replay []string) {
+	sigCount[sig]++
+	if sigCount[sig] <= 2 {
+		run.Violate(sig, desc, append([]string(nil), replay...))
+	} else {
+		run.Tag("violation:" + sig)
+	}
 }
+
+func (m *monCtx) violate(sig, desc string) { report(m.run, sig, desc, m.replay) }
 
 // every command the importer sends for peer p carries peer p
 func (m *monCtx) monCalls(p string, cs []call) {
@@ -1551,25 +1570,25 @@ func runExportCase(run *hx.Run, r *hx.RNG) {
 		for n := range all {
 			ex, wi := named(n)
 			if n == "consul" {
-				run.Violate("export:consul-service-offered", fmt.Sprintf("the consul service is offered to peer %s", p), []string{op})
+				report(run, "export:consul-service-offered", fmt.Sprintf("the consul service is offered to peer %s", p), []string{op})
 			}
 			if !ex && !wi {
-				run.Violate("export:offered-without-consumer-entry", fmt.Sprintf("service %s is offered to peer %s but no exported-services entry names the peer as its consumer (cfg %v)", n, p, cfg), []string{op})
+				report(run, "export:offered-without-consumer-entry", fmt.Sprintf("service %s is offered to peer %s but no exported-services entry names the peer as its consumer (cfg %v)", n, p, cfg), []string{op})
 			}
 			if !ex && wi && !seenT[n] && !seenR[n] {
-				run.Violate("export:wildcard-offers-unknown-name", fmt.Sprintf("service %s is offered to peer %s through a wildcard but is neither a local typical service nor a discovery chain", n, p), []string{op})
+				report(run, "export:wildcard-offers-unknown-name", fmt.Sprintf("service %s is offered to peer %s through a wildcard but is neither a local typical service nor a discovery chain", n, p), []string{op})
 			}
 		}
 		for _, e := range cfg {
 			ex, _ := named(e.name)
 			if ex && e.name != "*" && e.name != "consul" && !offered[e.name] {
-				run.Violate("export:entry-not-offered", fmt.Sprintf("an entry names peer %s as consumer of %s but it is not offered", p, e.name), []string{op})
+				report(run, "export:entry-not-offered", fmt.Sprintf("an entry names peer %s as consumer of %s but it is not offered", p, e.name), []string{op})
 			}
 		}
 		if _, wi := named("*"); wi {
 			for n := range seenT {
 				if n != "consul" && !offered[n] {
-					run.Violate("export:wildcard-misses-local-service", fmt.Sprintf("peer %s is a wildcard consumer but local service %s is not offered", p, n), []string{op})
+					report(run, "export:wildcard-misses-local-service", fmt.Sprintf("peer %s is a wildcard consumer but local service %s is not offered", p, n), []string{op})
 				}
 			}
 			run.Tag("export:peer-is-wildcard-consumer")
